@@ -1,8 +1,10 @@
 import XMT.Drv.C10
+import XMT.Drv.C11
 
 def dispatch (line : String) : String :=
   match (line.trimAscii.toString.splitOn " ").filter (· ≠ "") with
   | "C10" :: args => XMT.Drv.C10.handle args
+  | "C11" :: args => XMT.Drv.C11.handle args
   | _ => "bad-op"
 
 partial def loop (h : IO.FS.Stream) (out : IO.FS.Stream) : IO Unit := do
